@@ -17,6 +17,16 @@ def small_bundled(limit=6000):
     return [(f, d) for f, d in bundled() if len(d) <= limit]
 
 
+# small byte strings around the reader's corner cases (BOMs, UTF-16 tails, 0x0A bytes inside other code units)
+READER_CORNERS = [b"", b"\n", b"\xff", b"\xff\xfe", b"\xfe\xff", b"\xef\xbb", b"\xef\xbb\xbf", b"\xff\xfe\n", b"\xfe\xff\n", b"\xff\xfe\n\x00",
+                  b"\xfe\xff\x00\n", b"\xfe\xff\x01\n", b"\xff\xfe\x05\n", b"\xff\xfe\x41\n\n\x00", b"\xfe\xff\n\x41\x00\n", b"\xff\xfe\n\n\n\x00",
+                  b"\xfe\xff\n\n\x00\n", b"\xff\xfe\x41\x00\n", b"\xff\xfe\n\x41", b"\xfe\xff\x00\n\n", b"\xff\xfe\x00\n\x00\n\x00",
+                  "\ufeff[General]\nTitle:a\u010a".encode("utf-16-le"), "\ufeff[General]\nTitle:a\u010a".encode("utf-16-be"),
+                  "\ufeff[Metadata]\nVersion:Extra \u4e0a".encode("utf-16-le"), "\ufeff[Metadata]\nVersion:Extra \u4e0a".encode("utf-16-be"),
+                  "\ufeff[Metadata]\nVersion:x\u0a05".encode("utf-16-le"), "\ufeff[Metadata]\nVersion:x\U0001f60a".encode("utf-16-be"),
+                  "\ufeff\r\n[Metadata]\r\nTitle:first\r\n".encode("utf-16-le"), "\ufeff\r\n[Metadata]\r\nTitle:first\r\n".encode("utf-16-be")]
+
+
 def noise(rng):
     k = rng.random()
     n = rng.choice([0, 1, 2, 3, 5, 17, 64, 300])
@@ -71,6 +81,8 @@ def mutate_lines(rng, data):
 def file_case(rng, tier):
     """(tag, bytes)"""
     k = rng.random()
+    if k < 0.03:
+        return "reader-corner", rng.choice(READER_CORNERS)
     if k < 0.1:
         return "noise", noise(rng)
     if k < 0.55:
